@@ -154,8 +154,8 @@ def convertAll (d : DType) : List PyVal → Except Err (List Cell)
 
 /-- `"\x00" in val` of `_check_text_storable` (`property.py`): an HDF5 variable-length string ends at
 the first NUL, so a text containing one — anywhere, also at its end — is refused (`ValueError`) -/
-def Cell.hasNul : Cell → Bool
-  | .s v => v.any (· == Char.ofNat 0)
+def PyVal.hasNul : PyVal → Bool
+  | .pyStr v | .npStr v => v.any (· == Char.ofNat 0)
   | _ => false
 
 /-! ## inputs -/
@@ -287,18 +287,20 @@ def checkNewValueTypes (pd : DType) (inp : Input) : Except Err Unit :=
 
 def PropRec.clear (p : PropRec) : PropRec := { p with vals := [] }
 
+/-- `if vtype == DataType.String: _check_text_storable(vals)` -/
+def textRefused (d : DType) (vs : List PyVal) : Bool := d == .string && vs.any PyVal.hasNul
+
 /-- after the check passed: refuse text containing NUL, convert (`np.array(vals, dtype=vtype)`),
-resize to `n`, write.  Everything that can refuse precedes the resize.  (The NUL test runs before
-the conversion in the code; for text the conversion cannot fail, so the order is not observable.) -/
+resize to `n`, write.  Everything that can refuse precedes the resize. -/
 def assignList (p : PropRec) (vs : List PyVal) : PropRec × Except Err Unit :=
   match checkNewValueTypes p.dtype (.list vs) with
   | .error e => (p, .error e)
   | .ok _ =>
-    match convertAll p.dtype vs with
-    | .error e => (p, .error e)
-    | .ok cells =>
-      if cells.any Cell.hasNul then (p, .error .valueError)
-      else ({ p with vals := cells }, .ok ())
+    if textRefused p.dtype vs then (p, .error .valueError)
+    else
+      match convertAll p.dtype vs with
+      | .error e => (p, .error e)
+      | .ok cells => ({ p with vals := cells }, .ok ())
 
 /-- the `values` setter (`property.py:259-280`) -/
 def setValues (p : PropRec) (inp : Input) : PropRec × Except Err Unit :=
@@ -321,6 +323,13 @@ def setValues (p : PropRec) (inp : Input) : PropRec × Except Err Unit :=
       | .error e => (p, .error e)
       | .ok _ => (p, .error .typeError)            -- resize of a rank-1 dataset to rank ≥ 2
 
+/-- the Python objects `_check_text_storable(data)` iterates over (after `data = [data]` for a single
+value); an array never has `vtype == DataType.String` -/
+def Input.elems : Input → List PyVal
+  | .list vs => vs
+  | .ndarray _ _ _ => []
+  | other => [other.asElem]
+
 /-- `np.array(data, dtype=vtype).flatten('C')` for an input that passed the check -/
 def inputCells (d : DType) : Input → Except Err (List Cell)
   | .list vs => convertAll d vs
@@ -333,11 +342,11 @@ def extendValues (p : PropRec) (inp : Input) : PropRec × Except Err Unit :=
   match checkNewValueTypes p.dtype inp with
   | .error e => (p, .error e)
   | .ok _ =>
-    match inputCells p.dtype inp with
-    | .error e => (p, .error e)
-    | .ok cells =>
-      if cells.any Cell.hasNul then (p, .error .valueError)
-      else ({ p with vals := p.vals ++ cells }, .ok ())
+    if textRefused p.dtype inp.elems then (p, .error .valueError)
+    else
+      match inputCells p.dtype inp with
+      | .error e => (p, .error e)
+      | .ok cells => ({ p with vals := p.vals ++ cells }, .ok ())
 
 /-! ## optional attributes -/
 
